@@ -144,9 +144,25 @@ def builders(model):
         a, b = two_ops(I, S, f)
         c = inst(I, 'ScalingOperator', S[f], Rat.var('t'))
         return inst(I, 'ProductSpaceOperator', [[a, b], [0, c]])
+    def block_layout(I, S, f, layout):
+        """Blocks named by letters ('0' = no operator), row by row."""
+        a, b = two_ops(I, S, f)
+        ops = {'A': a, 'B': b,
+               'C': inst(I, 'ScalingOperator', S[f], Rat.var('t')),
+               'D': inst(I, 'ScalingOperator', S[f], Rat.var('u')),
+               '0': 0}
+        return inst(I, 'ProductSpaceOperator',
+                    [[ops[ch] for ch in row] for row in layout])
     for f in ('R', 'C'):
         B['ProductSpaceOperator[[A,B],[0,C]][%s]' % f] = (
             lambda I, S, f=f: block(I, S, f))
+        # every occupancy pattern of a 2 x 2 block matrix matters: the
+        # adjoint swaps the row / column index arrays without sorting
+        for layout in (('AB', 'CD'), ('AB', 'C0'), ('A0', 'CD'), ('0B', 'C0'),
+                       ('AB',), ('A', 'C'), ('AB', 'CD', 'A0')):
+            B['ProductSpaceOperator[%s][%s]' % ('/'.join(layout), f)] = (
+                lambda I, S, f=f, layout=layout: block_layout(I, S, f,
+                                                              layout))
     # tensor_ops: matrix, sampling and flattening operators
     def mat(name, shape, cx=False):
         a = _np.empty(shape, dtype=object)
